@@ -648,7 +648,9 @@ pub(crate) fn shr(lhs: Number, rhs: Number, arena: &mut Arena) -> Result<Number,
                 }
             };
 
-            let res = lhs.get_num().checked_shr(rhs).unwrap_or(0);
+            // an arithmetic right shift by >= 64 bits leaves only the sign: 0 or -1
+            let lhs = lhs.get_num();
+            let res = lhs.checked_shr(rhs).unwrap_or(if lhs < 0 { -1 } else { 0 });
             Ok(Number::arena_from(res, arena))
         }
         Number::Integer(lhs) => {
